@@ -467,3 +467,4 @@ class C16(Base):
 
 
 P = C16()
+P.RULE = P.RULE + ' Bundles built with TWO locales (`en-GB+en`: errors name the first), a message state with a repeated attribute name, prefetch ops between requests (`pf`), and requests preceded by the same request polled once and dropped (`xv`/`xvv`/`xmm`; a hand executor reports a request that would sleep for ever as STALLED).'
